@@ -185,14 +185,32 @@ theorem cens_dry_below_wet (A : Amounts) (hA : AmountLaws A) (thr : Rat) (u u' x
 example : censPpf (ratFam 0 1) (1 / 10) true (censCdf (ratFam 0 1) (1 / 10) (1 / 20) 0) = 0 :=
   cens_dry (ratFam 0 1) (ratFam_laws 1 (by norm_num)) (1 / 10) (1 / 20) 0 (by norm_num) (by norm_num) (by norm_num)
 
-/-- the fit splits the data at the threshold: non-censored values are those `> thr`, the rest is counted -/
+/-- the fit splits the data at the threshold: the non-censored values are exactly the values `> thr` (in order), all of
+    them are above the threshold, and the censored count is the number of values `≤ thr` -/
 theorem cens_fit_split (thr : Rat) (data : List Rat) :
     (censFitArgs thr data).1 = data.filter (fun v => decide (v > thr)) ∧
-    (censFitArgs thr data).2 + (censFitArgs thr data).1.length = data.length := by
-  unfold censFitArgs
-  simp only []
-  have := List.length_filter_le (fun v => decide (v > thr)) data
-  refine ⟨trivial, by omega⟩
+    (∀ v ∈ (censFitArgs thr data).1, thr < v) ∧
+    (censFitArgs thr data).2 = (data.filter (fun v => decide (v ≤ thr))).length := by
+  have hsplit : ∀ l : List Rat, l.length =
+      (l.filter (fun v => decide (v > thr))).length + (l.filter (fun v => decide (v ≤ thr))).length := by
+    intro l
+    induction l with
+    | nil => simp
+    | cons a t ih =>
+      simp only [List.filter_cons, List.length_cons]
+      by_cases h : a > thr
+      · have h' : ¬ a ≤ thr := not_le.mpr h
+        simp [h, h'] at ih ⊢; omega
+      · have h' : a ≤ thr := not_lt.mp h
+        simp [h, h'] at ih ⊢; omega
+  refine ⟨rfl, ?_, ?_⟩
+  · intro v hv
+    have : v ∈ data.filter (fun v => decide (v > thr)) := hv
+    simpa using (List.mem_filter.mp this).2
+  · show data.length - (data.filter (fun v => decide (v > thr))).length = _
+    have := hsplit data; omega
+
+example : censFitArgs (1 / 10) [0, 1 / 20, 1 / 10, 3] = ([3], 3) := by decide +kernel  -- concrete witness
 
 /-! ## `map_standard_precipitation_method`: a three-way factory -/
 
@@ -225,5 +243,111 @@ theorem factory_other (t : String) (isGamma : Bool) (thr : Rat) (rand : Bool) (h
 theorem ratFam_laws (s : Rat) (hs : 0 < s) : AmountLaws (ratFam 0 s) := Lemmas.Precip.ratFam_laws s hs
 
 theorem ratFam_inv0 (s : Rat) : (ratFam 0 s).ppfA ((ratFam 0 s).cdfA 0) = 0 := Lemmas.Precip.ratFam_inv0 s
+
+/-! ## proof round 4: families with a location, exact censoring test, element-wise structure of the array forms -/
+
+/-- hurdle, amounts family supported on `(lo, ∞)` with `lo ≥ 0` (a fitted or fixed location — `fit_kwds=None`,
+    `{"floc": c}`): wet values above the location are strictly above `p0` and come back exactly -/
+theorem hurdle_wet_roundtrip_located (A : Amounts) (lo : Rat) (hlo : 0 ≤ lo) (hA : AmountLawsOn lo A) (p0 : Rat)
+    (hp1 : p0 < 1) (rand : Bool) (u x : Rat) (hx : lo < x) :
+    hurdleCdf A p0 rand u x > p0 ∧ hurdlePpf A p0 (hurdleCdf A p0 rand u x) = x := by
+  have hF := hA.pos x hx
+  have h1 : 0 < 1 - p0 := by linarith
+  have hne : x ≠ 0 := ne_of_gt (lt_of_le_of_lt hlo hx)
+  have hc : hurdleCdf A p0 rand u x = p0 + (1 - p0) * A.cdfA x := by unfold hurdleCdf; rw [if_neg hne]
+  have hgt : p0 + (1 - p0) * A.cdfA x > p0 := by
+    have := mul_pos h1 hF.1; linarith
+  rw [hc]
+  refine ⟨hgt, ?_⟩
+  unfold hurdlePpf
+  rw [if_pos hgt]
+  have : (p0 + (1 - p0) * A.cdfA x - p0) / (1 - p0) = A.cdfA x := by
+    field_simp; ring
+  rw [this]; exact hA.inv x hx
+
+/-- ignore-zeros with a located family -/
+theorem iz_wet_roundtrip_located (A : Amounts) (lo : Rat) (hlo : 0 ≤ lo) (hA : AmountLawsOn lo A) (x : Rat)
+    (hx : lo < x) : (∃ q, izCdf A x = .fin q ∧ 0 < q ∧ q < 1) ∧ izPpf A (izCdf A x) = x := by
+  have hc : izCdf A x = .fin (A.cdfA x) := by unfold izCdf; rw [if_neg (ne_of_gt (lt_of_le_of_lt hlo hx))]
+  rw [hc]
+  exact ⟨⟨_, rfl, hA.pos x hx⟩, hA.inv x hx⟩
+
+/-- the located rational family satisfies the located laws (non-vacuity; it is the test double of the harness) -/
+theorem ratFamLoc_laws (loc s : Rat) (hs : 0 < s) : AmountLawsOn loc (ratFam loc s) := Lemmas.Precip.ratFamLoc_laws loc s hs
+
+example : hurdlePpf (ratFam (1 / 2) 2) (1 / 4) (hurdleCdf (ratFam (1 / 2) 2) (1 / 4) false 0 3) = 3 :=
+  (hurdle_wet_roundtrip_located _ (1 / 2) (by norm_num) (ratFamLoc_laws _ 2 (by norm_num)) (1 / 4) (by norm_num) false 0 3
+    (by norm_num)).2
+
+/-- the dry statements need **no** law of the family at all (in particular nothing about `ppfA 0`, which is the
+    location for a located family): this is what separates `q > p0` from `q ≥ p0` -/
+theorem hurdle_dry_any_family (A : Amounts) (p0 u : Rat) (rand : Bool) (hu : u ≤ p0) :
+    hurdlePpf A p0 (hurdleCdf A p0 rand u 0) = 0 := by
+  cases rand
+  · exact (hurdle_dry_no_randomisation A p0 u).2
+  · exact (hurdle_dry_randomised A p0 u hu).2
+
+/-- the censoring test of the ppf is exact: a value at or above the threshold is never censored, a value below it is
+    set to 0 iff `censor_in_ppf` -/
+theorem censPost_spec (thr : Rat) (censor : Bool) (v : Rat) :
+    (thr ≤ v → censPost thr censor v = v) ∧ (v < thr → censPost thr true v = 0) ∧ censPost thr false v = v := by
+  unfold censPost
+  refine ⟨fun h => ?_, fun h => ?_, ?_⟩
+  · have : ¬ v < thr := not_lt.mpr h
+    simp [this]
+  · simp [h]
+  · simp
+
+/-! ### the array forms are element-wise: evaluated on selected positions (only the wet values, only zeros, a single
+    value, a permutation, repeats …) and on chunks they give the selected / concatenated values of the whole vector -/
+
+theorem hurdleCdfL_select (A : Amounts) (p0 : Rat) (rand : Bool) (us xs : List Rat) (hlen : xs.length = us.length)
+    (dx du : Rat) (idx : List Nat) :
+    hurdleCdfL A p0 rand (idx.map (fun i => us.getD i du)) (idx.map (fun i => xs.getD i dx)) =
+      idx.map (fun i => (hurdleCdfL A p0 rand us xs).getD i (hurdleCdf A p0 rand du dx)) :=
+  zipWith_select _ xs us dx du idx hlen
+
+theorem hurdlePpfL_select (A : Amounts) (p0 : Rat) (qs : List Rat) (d : Rat) (idx : List Nat) :
+    hurdlePpfL A p0 (idx.map (fun i => qs.getD i d)) = idx.map (fun i => (hurdlePpfL A p0 qs).getD i (hurdlePpf A p0 d)) :=
+  map_select _ _ _ _
+
+theorem izCdfL_select (A : Amounts) (xs : List Rat) (d : Rat) (idx : List Nat) :
+    izCdfL A (idx.map (fun i => xs.getD i d)) = idx.map (fun i => (izCdfL A xs).getD i (izCdf A d)) :=
+  map_select _ _ _ _
+
+theorem izPpfL_select (A : Amounts) (qs : List ERat) (d : ERat) (idx : List Nat) :
+    izPpfL A (idx.map (fun i => qs.getD i d)) = idx.map (fun i => (izPpfL A qs).getD i (izPpf A d)) :=
+  map_select _ _ _ _
+
+theorem censArgL_select (thr : Rat) (us xs : List Rat) (hlen : xs.length = us.length) (dx du : Rat) (idx : List Nat) :
+    censArgL thr (idx.map (fun i => us.getD i du)) (idx.map (fun i => xs.getD i dx)) =
+      idx.map (fun i => (censArgL thr us xs).getD i (censArg thr du dx)) :=
+  zipWith_select _ xs us dx du idx hlen
+
+theorem censPostL_select (thr : Rat) (censor : Bool) (vs : List Rat) (d : Rat) (idx : List Nat) :
+    censPostL thr censor (idx.map (fun i => vs.getD i d)) = idx.map (fun i => (censPostL thr censor vs).getD i (censPost thr censor d)) :=
+  map_select _ _ _ _
+
+/-- chunks: evaluating consecutive chunks and concatenating is evaluating the whole vector -/
+theorem arrays_chunkwise (A : Amounts) (p0 thr : Rat) (rand censor : Bool) (xs xs' us us' : List Rat)
+    (hlen : xs.length = us.length) (qs qs' : List Rat) (es es' : List ERat) :
+    hurdleCdfL A p0 rand (us ++ us') (xs ++ xs') = hurdleCdfL A p0 rand us xs ++ hurdleCdfL A p0 rand us' xs' ∧
+    hurdlePpfL A p0 (qs ++ qs') = hurdlePpfL A p0 qs ++ hurdlePpfL A p0 qs' ∧
+    izCdfL A (xs ++ xs') = izCdfL A xs ++ izCdfL A xs' ∧
+    izPpfL A (es ++ es') = izPpfL A es ++ izPpfL A es' ∧
+    censArgL thr (us ++ us') (xs ++ xs') = censArgL thr us xs ++ censArgL thr us' xs' ∧
+    censPostL thr censor (qs ++ qs') = censPostL thr censor qs ++ censPostL thr censor qs' := by
+  refine ⟨List.zipWith_append hlen, List.map_append, List.map_append, List.map_append, List.zipWith_append hlen, List.map_append⟩
+
+/-- in particular: on a vector without any zero the ignore-zeros cdf is finite everywhere, on a vector of zeros it is `-∞`
+    everywhere — whatever else the fitted sample contained -/
+theorem izCdfL_no_zero (A : Amounts) (xs : List Rat) (h : ∀ x ∈ xs, x ≠ 0) : izCdfL A xs = xs.map (fun x => .fin (A.cdfA x)) := by
+  unfold izCdfL
+  apply List.map_congr_left
+  intro x hx
+  unfold izCdf; rw [if_neg (h x hx)]
+
+theorem izCdfL_all_zero (A : Amounts) (n : Nat) : izCdfL A (List.replicate n 0) = List.replicate n .negInf := by
+  unfold izCdfL; rw [List.map_replicate, iz_cdf_zero]
 
 end Props.C17
